@@ -124,8 +124,8 @@ Definition small_buckets (GW tsize cap : Z) : Z :=
 Lemma ctb_small GW cap tsize talign : cap < 15 ->
   capacity_to_buckets GW cap tsize talign = Some (small_buckets GW tsize cap).
 Proof.
-  intros H. unfold capacity_to_buckets, small_buckets.
-  destruct (Z.ltb_spec cap 15); [|lia].
+  intros H. unfold capacity_to_buckets, small_buckets. cmp_norm.
+  match goal with |- (if ?c then _ else _) = _ => destruct c eqn:Ec end; bool_hyps; [|lia].
   destruct (GW =? 16), (GW =? 8), (0 <=? tsize), (tsize <=? 1), (2 <=? tsize), (tsize <=? 3); cbn [andb];
     repeat match goal with |- context [if ?c then _ else _] => destruct c end; reflexivity.
 Qed.
@@ -134,7 +134,8 @@ Lemma ctb_large GW cap tsize talign : 15 <= cap ->
   capacity_to_buckets GW cap tsize talign =
   match checked_mul 64 cap 8 with None => None | Some q => Some (next_power_of_two 64 (q / 7)) end.
 Proof.
-  intros H. unfold capacity_to_buckets. destruct (Z.ltb_spec cap 15); [lia|reflexivity].
+  intros H. unfold capacity_to_buckets. cmp_norm.
+  match goal with |- (if ?c then _ else _) = _ => destruct c eqn:Ec end; bool_hyps; [lia|reflexivity].
 Qed.
 
 Ltac case_cmp :=
